@@ -150,7 +150,7 @@ def run_s3(case):
     st_ = Stepper()
     st_.handler = lambda n, phase, label, target, info: sch.step(phase, label, target, info)
     state = {"inside": [], "overlaps": [], "attempting": set(), "contended": False, "bad_held": [], "owner": None, "superseded": set(), "lapsed": False, "log_pos": 0,
-             "takeovers": [], "held_calls": []}
+             "takeovers": [], "held_calls": [], "acquiring": set(), "resurrected": []}
     with world.env(st_), virtual_time(sch, case.get("seed", 0)) as vt:
         import datashard.lock_provider as LP
 
@@ -170,7 +170,12 @@ def run_s3(case):
                         age = inf.get("prev_age_s")
                         state["takeovers"].append((prev, new, age, inf.get("cond")))
                         state["superseded"].add(prev)
-                    state["superseded"].discard(new)
+                    if new in state["superseded"] and new not in state["acquiring"]:
+                        # a holder that was taken over (or whose lock object was deleted by someone else) wrote the lock object
+                        # back OUTSIDE acquire(): it never observed that it had lost the lock
+                        state["resurrected"].append((new, inf.get("cond")))
+                    if new in state["acquiring"]:
+                        state["superseded"].discard(new)
                     state["owner"] = new
                 elif op_ == "delete" and inf.get("existed"):
                     prev = ids.get(inf["prev"].decode().split("\n")[0], "?")
@@ -195,11 +200,16 @@ def run_s3(case):
                 state["attempting"].add(i)
                 if len(state["attempting"]) > 1:
                     state["contended"] = True
+                state["acquiring"].add(i)
                 try:
                     ok = p.acquire()
                 except TimeoutError:
                     state["attempting"].discard(i)
+                    state["acquiring"].discard(i)
                     return ("timeout", sch.now - t0)
+                finally:
+                    scan_log()
+                state["acquiring"].discard(i)
                 if ok is not True:
                     return ("acquire-returned", ok)
                 scan_log()
@@ -285,6 +295,8 @@ def run_s3(case):
             out["violations"].append(("s3/takeover-of-live-lock", f"contender {new} took the lock over from {prev} although the object was only {age:.0f}s old at landing (lease {LEASE}s)"))
     for i, what in state["bad_held"]:
         out["violations"].append(("s3/is_held-wrong", f"contender {i}: {what}"))
+    for i, cond in state["resurrected"]:
+        out["violations"].append(("s3/superseded-holder-resurrected-its-lock", f"contender {i} had been superseded (taken over, or its lock object deleted by another party) and wrote the lock object back outside acquire() (condition {cond}): it goes on as a holder without ever observing the loss"))
     for i, h, sup in state["held_calls"]:
         if sup and h:
             out["violations"].append(("s3/superseded-holder-reports-held", f"contender {i} was superseded (takeover / deletion by another party) but is_held() returned True"))
